@@ -75,7 +75,7 @@ package cardinality
 
 //@ func NewBitmap64() Duplex[uint64]
 //@   nomod
-//@   ensures typeof(result) == bitmap64 && result.(bitmap64).bitmap != nil && fresh(result.(bitmap64).bitmap) && viewof(result) == {}
+//@   ensures typeof(result) == bitmap64 && allocated(result) && result.(bitmap64).bitmap != nil && fresh(result.(bitmap64).bitmap) && viewof(result) == {} && cellof(result) == result.(bitmap64).bitmap
 
 //@ func (s bitmap64) Add(values ...uint64)
 //@   requires s.bitmap != nil
@@ -160,7 +160,7 @@ package cardinality
 
 //@ func NewBitmap32() Duplex[uint32]
 //@   nomod
-//@   ensures typeof(result) == bitmap32 && result.(bitmap32).bitmap != nil && fresh(result.(bitmap32).bitmap) && viewof(result) == {}
+//@   ensures typeof(result) == bitmap32 && allocated(result) && result.(bitmap32).bitmap != nil && fresh(result.(bitmap32).bitmap) && viewof(result) == {} && cellof(result) == result.(bitmap32).bitmap
 
 //@ func (s bitmap32) Add(values ...uint32)
 //@   requires s.bitmap != nil
